@@ -17,7 +17,7 @@ ASSUMPTIONS = ["the schedules explored are those the OS produces on 16 cores; TS
 
 def classify(op, R):
     p = op.split(" ")
-    return "thr:n%s:it%s" % (p[1], p[3])
+    return "%s:n%s:it%s" % (p[0], p[1], p[3])
 
 
 def gen_ops(rng, tier):
@@ -25,6 +25,10 @@ def gen_ops(rng, tier):
     ops = []
     for i in range(120 if big else 24):
         ops.append("thr %d %d %d" % (rng.choice([2, 3, 4, 8, 16, 16]), rng.randrange(1 << 30), rng.choice([20, 60, 150]) if not big else rng.choice([60, 200, 400])))
+    # a fresh process per operation, in which the very first use of the library - its one-time initialisations (CPU feature detection,
+    # derived tables) included - happens in all threads at once
+    for i in range(40 if big else 6):
+        ops.append("thr0 %d %d %d" % (rng.choice([2, 4, 8, 16]), rng.randrange(1 << 30), rng.choice([10, 30])))
     return ops
 
 
